@@ -448,7 +448,7 @@ func genBodyOp(r *rnd, allowNested bool) OpM {
 
 // genHistory draws a history.  profile "nofault": edits only; "fault": edits
 // plus environment events (interleaved Bytes, save/reload, failing writers).
-func genHistory(seed uint64, profile string) *History {
+func genHistory(seed uint64, profile string, deep bool) *History {
 	r := &rnd{s: mix(seed, 7)}
 	h := &History{Property: "C12", Seed: seed}
 	if r.chance(1, 5) {
@@ -469,6 +469,10 @@ func genHistory(seed uint64, profile string) *History {
 	nops := r.n(9)
 	if r.chance(1, 4) {
 		nops = 8 + r.n(32)
+	}
+	if deep {
+		// thorough tier: long histories
+		nops = 20 + r.n(100)
 	}
 	envRate := 0
 	if profile == "fault" {
